@@ -3,7 +3,17 @@ package main
 // Rng is SplitMix64; every random choice of the harness derives from one state.
 type Rng struct{ s uint64 }
 
-func NewRng(seed uint64) *Rng { return &Rng{s: seed*0x9E3779B97F4A7C15 + 0x1234567} }
+// NewRng mixes the seed first, so that nearby seeds give unrelated streams (the state is
+// advanced by a constant per draw: an unmixed seed k+1 would be seed k shifted by one draw).
+func NewRng(seed uint64) *Rng {
+	r := &Rng{s: seed}
+	a := r.U64()
+	r.s = a ^ 0x1234567
+	b := r.U64()
+	r.s = a ^ (b << 1) ^ 0x9E3779B97F4A7C15*seed
+	r.s = r.U64()
+	return r
+}
 
 func (r *Rng) U64() uint64 {
 	r.s += 0x9E3779B97F4A7C15
